@@ -3097,8 +3097,14 @@ func (r *stack) implode(start, max int, spat []int) (tpat []int) {
 func (r *stack) canPushNester(x any) (can bool) {
 	can = true
 	if r.positive(nnest) {
-		_, isStack := stackTypeAliasConverter(x)
-		can = !isStack
+		if _, native := x.(Stack); native {
+			// a native Stack is a Stack whether
+			// or not it has been initialised
+			can = false
+		} else {
+			_, isStack := stackTypeAliasConverter(x)
+			can = !isStack
+		}
 	}
 	return
 }
